@@ -1,6 +1,7 @@
 (* stdin line:  <fuel> <oracle bits, e.g. 0110 or -> <program tokens>
    program tokens (function body, prefix form):
-     P c | D c | B l | C l | R | T | K l ( .. ) | L l w ( .. ) | I ( .. ) ( .. )
+     P c | D c | E ( items ) | B l | C l | R | T k (k = z|o|e: branch of the .try error path) | K l ( .. ) | L l w ( .. ) | I ( .. ) ( .. )
+     E = defer of a jump-free block; items: P c | D c | E ( items )
    where c = char code, l = label number or '-', w = 1 (while cond) / 0 (loop).
    stdout line: spec=<r> model=<r> fixed=<r> hspec=<r> cls=<k1><k2><k3> err=<0|1>
    <r> = '"' chars '"' | CRASH<n> | FUEL *)
@@ -18,14 +19,29 @@ let parse (toks : string list) : stmt list =
     (if adv () <> "(" then failwith "expected (");
     let l = stmts () in
     (if adv () <> ")" then failwith "expected )"); l
+  and dblock () : dexpr =
+    (if adv () <> "(" then failwith "expected (");
+    let ps = ref [] and ds = ref [] in
+    while peek () <> ")" do
+      (match adv () with
+       | "P" -> ps := n_of_int (int_of_string (adv ())) :: !ps
+       | "D" -> ds := DAtom (n_of_int (int_of_string (adv ()))) :: !ds
+       | "E" -> ds := dblock () :: !ds
+       | t -> failwith ("bad defer item " ^ t))
+    done;
+    ignore (adv ());
+    DBlock (List.rev !ps, List.rev !ds)
   and stmt () =
     match adv () with
     | "P" -> SPrint (n_of_int (int_of_string (adv ())))
-    | "D" -> SDefer (n_of_int (int_of_string (adv ())))
+    | "D" -> SDefer (DAtom (n_of_int (int_of_string (adv ()))))
+    | "E" -> SDefer (dblock ())
     | "B" -> SBreak (lbl ())
     | "C" -> SContinue (lbl ())
     | "R" -> SReturn
-    | "T" -> STry
+    | "T" -> STry (match adv () with
+                   | "z" -> TryZeroSized | "o" -> TryOptional | "e" -> TryError
+                   | t -> failwith ("bad try kind " ^ t))
     | "K" -> let l = lbl () in SBlock (l, group ())
     | "L" -> let l = lbl () in let w = adv () = "1" in SLoop (l, w, group ())
     | "I" -> let a = group () in let b = group () in SIf (a, b)
